@@ -16,6 +16,29 @@ pub fn drive(tr: &mut Tracer, rng: &mut StdRng, thorough: bool) {
             tr.emit(json!({"op": "rem", "form": f, "a": dec(rng.gen_bool(0.5), &shaped_digits(rng, l), rng.gen_range(-4..=4)), "b": dec(false, "0", zsc)}));
         }
     }
+    // operands equal up to representation, exact small multiples, divisors just above a power of two: every gap 0..60 in
+    // both directions, every spelling (a shortcut that compares sizes instead of dividing goes wrong exactly here)
+    for gap in 0..=60i64 {
+        for k in 0..(if thorough { 12 } else { 4 }) {
+            let lb = 1 + rng.gen_range(0..12usize);
+            let bdig = match k % 4 { 0 => rand_digits(rng, lb), 1 => format!("{}", (1u64 << rng.gen_range(1..40)) + 1), 2 => "1".to_string(), _ => format!("{}", 1u64 << rng.gen_range(1..50)) };
+            let bn: num_bigint::BigInt = bdig.parse().unwrap();
+            let mult: i64 = [1, 1, 2, 3, 10, 7][rng.gen_range(0..6)];
+            let extra: i64 = [0, 0, 1, -1][rng.gen_range(0..4)];
+            let p10 = num_bigint::BigInt::from(10).pow(gap as u32);
+            let sb = rng.gen_range(-6..=6i64);
+            // a = mult * b (+- one unit in its last place), written with `gap` more (or fewer) fraction digits than b
+            let (a, b) = if k % 2 == 0 {
+                (parts_to_json(&(&bn * mult * &p10 + extra), sb + gap), parts_to_json(&bn, sb))
+            } else {
+                (parts_to_json(&(&bn * mult + extra), sb), parts_to_json(&(&bn * &p10), sb + gap))
+            };
+            for (x, y) in [(&a, &b), (&b, &a)] {
+                if json_to_bigint(y) == num_bigint::BigInt::from(0) { continue; }
+                for f in FORMS { tr.emit(json!({"op": "rem", "form": f, "a": x, "b": y})); }
+            }
+        }
+    }
     let n = if thorough { 12000 } else { 2500 };
     let max_len = if thorough { 2000 } else { 400 };
     let mut gaps: Vec<i64> = (0..=45).collect();
